@@ -25,6 +25,22 @@ Theorem C10_histories_valid :
 Proof. exact hist_reachable_valid. Qed.
 Print Assumptions C10_histories_valid.
 
+(* the same with arr.add(name=value, ...) among the operations (a fresh element plus attribute assignments as one
+   all-or-nothing operation) *)
+Theorem C10_items_valid :
+  forall t hs, legal t = true ->
+    valid t (fst (run_items t hs (default t, default t))) = true /\
+    valid t (snd (run_items t hs (default t, default t))) = true.
+Proof. exact items_reachable_valid. Qed.
+Print Assumptions C10_items_valid.
+
+Theorem C10_add_with_rejected_unchanged :
+  forall t st b path i attrs,
+    (forall nv, snd (hitem_step t st (HAddWith b path i attrs)) <> ADone nv) ->
+    fst (hitem_step t st (HAddWith b path i attrs)) = st.
+Proof. exact add_with_rejected_unchanged. Qed.
+Print Assumptions C10_add_with_rejected_unchanged.
+
 (* a rejected operation (ProphyError / IndexError / ValueError, or not an operation at all)
    leaves the message unchanged; a performed one yields exactly the reported state *)
 Theorem C10_rejected_unchanged :
